@@ -81,7 +81,9 @@ def run(m, chk):
     sq = IKV + "span"
     c2 = r.root(sq)
     guards = v1_guard_in(r, sq, "nodes")
-    work = [n for n in r.stmt_nodes(c2) if n.kind == "stmt" and not isinstance(n.ast, ast.Raise) and not (isinstance(n.ast, ast.Expr) and isinstance(n.ast.value, ast.Constant))]
+    from .c03 import _is_valid_probe
+
+    work = [n for n in r.stmt_nodes(c2) if n.kind == "stmt" and not isinstance(n.ast, ast.Raise) and not (isinstance(n.ast, ast.Expr) and isinstance(n.ast.value, ast.Constant)) and not _is_valid_probe(n.ast)]
     bad = [n for n in work if not any(r.guard_dominates(c2, g, n.id) for g in guards)]
     chk.ob("GATE-VALID", f"{sq}: everything after `if not self.valid(nodes): raise ValueError`", not bad, loc=r.loc(c2, bad[0].ast) if bad else r.loc(c2, c2.fi.node), detail="" if not bad else f"{sq}: `{seg(bad[0].ast, 50)}` is reachable without the valid ⇒ ValueError guard", func=sq, construct="unguarded query")
     both_limits(r, chk, IKV + "__valid_single")
